@@ -75,9 +75,10 @@ class C13(Check):
     ]
     rule = ('cases = (scenario, crash point n) for scenarios {blocking acquire/release, with, acquire_ctx, non-blocking, '
             'reentrant nested x2, nested + forced release, timed acquire against a live holder, finite default timeout, '
-            'holder that spawned a subprocess, garbage-collected holder} and EVERY n in 1..K(scenario), with 0 contenders; '
+            'holder that spawned a subprocess, garbage-collected holder, the first and the subprocess scenario again with standard input '
+            'closed (lock file on descriptor 0)} and EVERY n in 1..K(scenario), with 0 contenders; '
             'the worker forked by a live parent that had used the same lock object; '
-            'plus chunks of crash points with 1-2 live contender processes, and with one live process that is polling with a 25 s '
+            'plus chunks of crash points with 1-2 live contender processes (a single one has two threads sharing its lock objects), and with one live process that is polling with a 25 s '
             'timeout (judged by the pauses it began after the kill before it had the lock: at most 8); non-trivial = the child was killed while it '
             'held the kernel lock or had the lock file open (between open and flock / between unlock and close); '
             'distinct = distinct (scenario, n, contenders)')
